@@ -1,6 +1,8 @@
 package props
 
 import (
+	"math"
+
 	"github.com/trajectoryjp/spatial_id_go/v4/operated"
 
 	"verifmon/core"
@@ -110,6 +112,25 @@ func runC07(c *core.Case) {
 			dv2 = target - id.F - dv1
 		}
 		c.Tag("decimal-boundary-f")
+	}
+	if r.P(0.04) {
+		// the shifted vertical index lands on or next to an end of int64 (the statement: "any vertical shift that keeps
+		// the index within 64 bits"); the second shift moves away from the end so that the sum stays in range
+		k := r.Range(0, 2000)
+		if r.Bool() {
+			k = r.Range(0, 3)
+		}
+		if r.Bool() {
+			dv1 = math.MaxInt64 - k - id.F
+			dv2 = -r.Range(0, 1000)
+		} else {
+			dv1 = math.MinInt64 + k - id.F
+			dv2 = r.Range(0, 1000)
+		}
+		if dv1 == math.MinInt64 { // -dv1 does not exist
+			dv1++
+		}
+		c.Tag("result-at-int64-limit")
 	}
 	s := id.Ext()
 	var got1, got12, gotSum, gotBack, gotZero string
